@@ -193,12 +193,50 @@ BaseMenu == {
 RichMenu == BaseMenu \cup {
   [name |-> "aab|b",  rs |-> RsRe(ReAABorB),   cls |-> "re-growing", alpha |-> {c_a, c_b, c_x}],
   [name |-> "x|cr?nl",rs |-> RsRe(ReXorCRLF),  cls |-> "re-growing", alpha |-> {c_x, CR, LF, c_a}],
-  [name |-> "abbb|b", rs |-> RsRe(ReABBBorB),  cls |-> "re-growing", alpha |-> {c_a, c_b, c_x}],
+  [name |-> "abbb|b", rs |-> RsRe(ReABBBorB),  cls |-> "re-earlier", alpha |-> {c_a, c_b, c_x}],
   [name |-> "byte-semi", rs |-> RsSep(<<SEMI>>), cls |-> "byte",   alpha |-> {SEMI, LF, CR, c_a}],
   [name |-> "para-cr", rs |-> RsPara,          cls |-> "para-cr",    alpha |-> {c_a, LF, CR}] }
 Menu(rich) == IF rich THEN RichMenu ELSE BaseMenu
-MenuSel(sel) == CASE sel = "base" -> BaseMenu [] sel = "extra" -> RichMenu \ BaseMenu [] OTHER -> RichMenu
-MenuEntry(nm) == CHOOSE m \in RichMenu : m.name = nm
+\* Entries whose inputs are built from BLOCKS instead of single bytes (alpha is a set of byte strings): separators far
+\* longer than the text of the pattern, so that a delivery boundary can fall deep inside one occurrence.
+Rep(ch, m) == [j \in 1..m |-> ch]
+ReAplusB  == Cat(Plus(Lit(c_a)), Lit(c_b))                    \* a+b
+ReABplusC == Cat(Lit(c_a), Cat(Plus(Lit(c_b)), Lit(c_c)))     \* ab+c
+ReNLdashNL == Cat(Lit(LF), Cat(Plus(Lit(MINUS)), Lit(LF)))     \* \n-+\n
+LongMenu == {
+  [name |-> "a+b",     rs |-> RsRe(ReAplusB),   cls |-> "re-long", alpha |-> {<<c_x>>, <<c_b>>, <<c_a>>, Rep(c_a, 11)}],
+  [name |-> "ab+c",    rs |-> RsRe(ReABplusC),  cls |-> "re-long", alpha |-> {<<c_x>>, <<c_a>>, <<c_c>>, <<c_b>>, Rep(c_b, 13)}],
+  [name |-> "nl-+nl",  rs |-> RsRe(ReNLdashNL), cls |-> "re-long", alpha |-> {<<c_x>>, <<LF>>, <<MINUS>>, Rep(MINUS, 12)}],
+  [name |-> "ab+long", rs |-> RsRe(ReABplus),   cls |-> "re-long", alpha |-> {<<c_x>>, <<c_a>>, <<c_b>>, Rep(c_b, 14)}],
+  [name |-> "para-long", rs |-> RsPara,         cls |-> "para",    alpha |-> {<<c_a>>, <<LF>>, Rep(LF, 9), Rep(c_a, 10)}],
+  [name |-> "nl-long", rs |-> RsNl,             cls |-> "nl",      alpha |-> {<<c_a>>, <<LF>>, <<CR>>, Rep(c_a, 12)}] }
+AllMenu == RichMenu \cup LongMenu
+MenuSel(sel) == CASE sel = "base" -> BaseMenu [] sel = "extra" -> RichMenu \ BaseMenu [] sel = "all" -> RichMenu
+                  [] sel = "long" -> LongMenu
+                  [] OTHER -> {m \in AllMenu : m.name = sel}
+MenuEntry(nm) == CHOOSE m \in AllMenu : m.name = nm
+
+\* ------------------------------------------------------------------------
+\* RS assigned while an input is being read.  What the statement determines: a record is split off with the RS in force
+\* when it is read, so after the program assigned RS on seeing record number k, the rest of the input (everything after
+\* record k and its terminator) is split by the new RS.  The entries start with a regular-expression RS, the case the
+\* implementation treats (an active regex splitter follows the recompiled separator); the new RS is a newline, one
+\* character or another regular expression, over alphabets without CR.
+RsAt(rs1, rs2, k, nrec) == IF nrec >= k THEN rs2 ELSE rs1
+RecordsSwitch(inp, rs1, rs2, k) ==
+  LET r1 == Records(inp, rs1)
+  IN IF Len(r1) <= k THEN r1
+     ELSE LET hd   == SubSeq(r1, 1, k)
+              used == Len(RecAndRT(hd))
+          IN hd \o Records(SubSeq(inp, used + 1, Len(inp)), rs2)
+SwitchMenu == {
+  [name |-> "ab->nl",    rs |-> RsRe(ReABlit),  rs2 |-> RsNl,              cls |-> "switch-nl",   alpha |-> {c_a, c_b, LF}],
+  [name |-> "ab+->nl",   rs |-> RsRe(ReABplus), rs2 |-> RsNl,              cls |-> "switch-nl",   alpha |-> {c_a, c_b, LF}],
+  [name |-> "x|nl->nl",  rs |-> RsRe(Alt(Lit(c_x), Lit(LF))), rs2 |-> RsNl, cls |-> "switch-nl",  alpha |-> {c_a, c_x, LF}],
+  [name |-> "ab->x",     rs |-> RsRe(ReABlit),  rs2 |-> RsSep(<<c_x>>),    cls |-> "switch-byte", alpha |-> {c_a, c_b, c_x}],
+  [name |-> "ab->[ab]a", rs |-> RsRe(ReABlit),  rs2 |-> RsRe(ReClsAB),     cls |-> "switch-re",   alpha |-> {c_a, c_b, c_x}],
+  [name |-> "[ab]a->ab+",rs |-> RsRe(ReClsAB),  rs2 |-> RsRe(ReABplus),    cls |-> "switch-re",   alpha |-> {c_a, c_b, c_x}],
+  [name |-> "ab->eacute",rs |-> RsRe(ReABlit),  rs2 |-> RsSep(EACUTE),     cls |-> "switch-mbchar", alpha |-> {c_a, c_b, xC3, xA9}] }
 
 \* Which parts of a case the statement pins down (the rest is compared across
 \* delivery schedules only):
